@@ -12,4 +12,5 @@ PY
 /venv/bin/python -m compileall -q sim > /dev/null
 mkdir -p evidence replays
 test -s corpus/maa.json || /venv/bin/python tools/mine_maa.py
+test -s corpus/maa_order_sensitive.json || /venv/bin/python tools/mine_sensitive.py 2>/dev/null
 echo "setup ok"
